@@ -59,8 +59,64 @@ class TS:
                 tz = a[0] if a else k.get('tz')
                 return TS(self.t, None if tz is None else 'UTC', self.now, self.py)
             return PyCallable(conv, name)
+        real = self.real_attr(interp, name, node)
+        if real is not NotImplemented:
+            return real
         from .models_xr import missing_attr
         missing_attr('pandas', 'Timestamp', name, node)
+
+    def real_attr(self, interp, name, node):
+        """an attribute / method nobody wrote down, on a concrete instant: ask the real class (the instant is a concrete number of seconds since the
+        epoch, so this is a library call on concrete values, like sa/bridge.py's)"""
+        if self.now or name.startswith('_'):
+            return NotImplemented
+        try:
+            import datetime as _dt
+            import pandas as _pd
+        except ImportError:
+            return NotImplemented
+        ns = self.t * 10**9
+        if ns.denominator != 1:
+            return NotImplemented
+        if self.py:
+            obj = _dt.datetime(1970, 1, 1, tzinfo=_dt.timezone.utc if self.tz else None) + _dt.timedelta(microseconds=int(ns) // 1000)
+            if int(ns) % 1000:
+                return NotImplemented
+        else:
+            obj = _pd.Timestamp(int(ns), unit='ns', tz='UTC' if self.tz else None)
+        if not hasattr(obj, name):
+            return NotImplemented
+
+        def back(v):
+            if isinstance(v, _pd.Timestamp):
+                if v is _pd.NaT or (v.tz is not None and str(v.tz) != 'UTC'):
+                    raise AnalysisError(f'Timestamp.{name}: result in a zone other than UTC / NaT not modelled', node)
+                return TS(Fr(v.value, 10**9), 'UTC' if v.tz is not None else None)
+            if isinstance(v, _dt.datetime):
+                if v.tzinfo is not None and v.utcoffset() != _dt.timedelta(0):
+                    raise AnalysisError(f'datetime.{name}: result in a zone other than UTC not modelled', node)
+                epoch = _dt.datetime(1970, 1, 1, tzinfo=v.tzinfo)
+                d = v - epoch
+                return TS(Fr(d.days * 86400 * 10**6 + d.seconds * 10**6 + d.microseconds, 10**6), 'UTC' if v.tzinfo is not None else None, py=True)
+            if isinstance(v, bool) or v is None or isinstance(v, (int, str)):
+                return v
+            if isinstance(v, float):
+                return Fr(v)
+            raise AnalysisError(f'Timestamp.{name}: result of type {type(v).__name__} not modelled', node)
+        attr = getattr(obj, name)
+        if not callable(attr):
+            return back(attr)
+
+        def call(it, a, k, n):
+            if not all(isinstance(x, (int, str, bool, type(None))) for x in list(a) + list(k.values())):
+                raise AnalysisError(f'Timestamp.{name} with arguments that are not plain constants not modelled', n)
+            try:
+                return back(attr(*a, **k))
+            except AnalysisError:
+                raise
+            except Exception as e:       # the real library's own answer for these concrete arguments
+                raise AbsRaise(ExcVal(type(e).__name__ if type(e).__name__ in ('ValueError', 'TypeError', 'AttributeError', 'KeyError', 'OverflowError') else 'ValueError', (str(e)[:120],)), n)
+        return PyCallable(call, f'Timestamp.{name}')
 
     def abs_truth(self):
         return True
